@@ -127,6 +127,7 @@ def gen_contract_vcs(q, carve_outs=()):
         binding[p] = ctx.fresh("p_" + p, parse_ty(ann))
     st0 = State(env=dict(binding))
     eng.cur_func = q
+    eng.cur_func_node = fnode
     eng.loop_counter = 0
     parts = eng.contract_parts(q, binding, st0)
     st = st0
@@ -174,6 +175,7 @@ def gen_lemma_vcs(name):
         binding[a.arg] = ctx.fresh("p_" + a.arg, parse_ty(ast.unparse(a.annotation)))
     st0 = State(env=dict(binding))
     eng.cur_func = "lemma:" + name
+    eng.cur_func_node = lnode
     eng.loop_counter = 0
     eng.module = "api"
     outs = eng.run_block(lnode.body, st0)
